@@ -246,6 +246,10 @@ pub fn jobs_for(prop: &str, thorough: bool) -> Vec<Job> {
                 swp.merges = true;
                 js.push(job(s, "observer sweep along adversarial FIFO extensions, model at every K", c, Some(swp), 1200));
                 js.push(template_job(s, mon::SPEC, Delivery::Fifo, true, if s.len() == 3 { 3000 } else { 1000 }));
+                let mut tf = template_job(s, mon::SPEC, Delivery::Fifo, true, 1000);
+                tf.cfg.delivery = Delivery::Fifo;
+                tf.label = "conflict template authored under per-actor order, every delivery order";
+                js.push(tf);
             }
         }
         "C06" => {
@@ -310,6 +314,11 @@ pub fn jobs_for(prop: &str, thorough: bool) -> Vec<Job> {
                 js.push(job(s, "authoring under the weak discipline + merges; causal observers as reference", c2, sw(6, Delivery::Causal, 0), 1500));
                 if ["MMO", "MMM", "MO", "MM", "OS"].contains(&s) {
                     js.push(template_job(s, mon::CONV | mon::SPEC, Delivery::Fifo, false, if s.len() == 3 { 4000 } else { 1500 }));
+                    // authors that themselves hold only per-actor-ordered knowledge (ops generated from non-closed states)
+                    let mut tf = template_job(s, mon::CONV | mon::SPEC, Delivery::Fifo, false, 1200);
+                    tf.cfg.delivery = Delivery::Fifo;
+                    tf.label = "conflict template authored under per-actor order, every delivery order";
+                    js.push(tf);
                     // four actors: holder, second writer, inner remover and outer remover can all be distinct
                     let mut c4 = c;
                     c4.nrep = 4;
@@ -472,6 +481,12 @@ pub fn jobs_for(prop: &str, thorough: bool) -> Vec<Job> {
                     let mut t = template_job(s, mon::SERDE, Delivery::Causal, false, 400);
                     t.sweep = Some(Sweep { next: 12, disc: Delivery::Causal, causal_ref: 0, exhaustive_upto: 0, merges: false });
                     js.push(t);
+                    // the same with authors that have received each other's ops in per-actor order only
+                    let mut t2 = template_job(s, mon::SERDE, Delivery::Fifo, false, 600);
+                    t2.cfg.delivery = Delivery::Fifo;
+                    t2.sweep = Some(Sweep { next: 12, disc: Delivery::Fifo, causal_ref: 0, exhaustive_upto: 0, merges: false });
+                    t2.label = "conflict template, authors and observers under per-actor order";
+                    js.push(t2);
                     let mut c4 = c;
                     c4.nrep = 4;
                     c4.nsteps = 24;
